@@ -140,7 +140,10 @@ def canonicalize_license_expression(
 
             if final_token.startswith("licenseref-"):
                 ref = original_token[: len(original_token) - len(suffix)]
-                if not license_ref_allowed.match(ref):
+                # SPDX: idstring = 1*(ALPHA / DIGIT / "-" / "."), so not empty.
+                if not license_ref_allowed.match(ref) or len(ref) == len(
+                    licenseref_prefix
+                ):
                     message = f"Invalid licenseref: {final_token!r}"
                     raise InvalidLicenseExpression(message)
                 normalized_tokens.append(
